@@ -218,7 +218,7 @@ theorem bgAddWindow_ok {K : Nat} (seq : Array Nat) (start w : Nat) (b : Array Na
     underflow when they are available -/
 theorem bgSubWindow_ok {K : Nat} (seq : Array Nat) (start w : Nat) (b : Array Nat)
     (hb : b.size = K) (hin : start + w ≤ seq.size) (hsym : ∀ k, k < seq.size → seq.getD k 0 < K)
-    (hav : ∀ c, winCount seq start w c ≤ b.getD c 0) :
+    (hav : ∀ c, c < K → winCount seq start w c ≤ b.getD c 0) :
     ∃ b', bgSubWindow seq start w b = .ok b' ∧ b'.size = K ∧
       ∀ c, b'.getD c 0 + winCount seq start w c = b.getD c 0 := by
   unfold bgSubWindow
@@ -229,7 +229,7 @@ theorem bgSubWindow_ok {K : Nat} (seq : Array Nat) (start w : Nat) (b : Array Na
     rw [symAt_ok _ _ hk]
     have hge : 1 ≤ t.getD (seq.getD (start + j) 0) 0 := by
       have h1 := hc (seq.getD (start + j) 0)
-      have h2 := hav (seq.getD (start + j) 0)
+      have h2 := hav (seq.getD (start + j) 0) (hsym _ hk)
       have h3 := winCount_mono seq start (seq.getD (start + j) 0) (show j + 1 ≤ w by omega)
       rw [winCount_succ] at h3
       simp only [if_true] at h3
